@@ -39,11 +39,16 @@ def py_sat(tests_str, fullname):
     return True
 
 
-def test_of(suite, left):
-    """the test whose name is the longest prefix of a node's (setless) left name part; the rest are clone labels"""
+def test_of(suite, left, asg=None):
+    """the test whose name is the longest prefix of a node's (setless) left name part (the rest are clone labels);
+    among same-named abstract tests (variant dependent declarations) the one whose own restrictions admit `asg`"""
     best = None
     for t in suite["tests"]:
-        if (left == t["name"] or left.startswith(t["name"] + ".")) and (best is None or len(t["name"]) > len(best["name"])):
+        if not (left == t["name"] or left.startswith(t["name"] + ".")):
+            continue
+        if asg is not None and any(vm in t["only"] and v not in t["only"][vm] for vm, v in asg.items()):
+            continue
+        if best is None or len(t["name"]) > len(best["name"]):
             best = t
     return best
 
@@ -68,8 +73,8 @@ def spec_c07(ctx, case, x):
         if nd["flat"] or nd["clone_source"]:
             continue
         left = nd["setless"].split(".vms.")[0]
-        t = test_of(suite, left)
         asg = {o["suffix"]: gl.variant_label(o["comp"], o["suffix"]) for o in nd["objects"] if o["key"] == "vms"}
+        t = test_of(suite, left, asg)
         info[i] = (t, asg, nd["worker"], left)
         if t is None:
             bad.append(("unknown-test", f"node {nd['id']} is no test of the suite"))
@@ -81,7 +86,7 @@ def spec_c07(ctx, case, x):
         if t is not None:
             fam.setdefault((t["name"], tuple(sorted(asg.items())), w), []).append(i)
     for (tname, asg_t, w), members in fam.items():
-        t = next(tt for tt in suite["tests"] if tt["name"] == tname)
+        t = info[members[0]][0]
         asg = dict(asg_t)
         slots = declared_slots(t, list(asg))
         for (vm, kind), decl in slots.items():
@@ -134,7 +139,7 @@ def spec_c07(ctx, case, x):
             continue
         if not any(py_sat(case["tests_str"], s + "." + t["name"]) for s in gl.test_sets(t)):
             continue
-        vms = t["vms"] if t["vms"] is not None else ["vm1"]
+        vms = t["vms"] if t["vms"] is not None else [suite.get("main_vm", "vm1")]
         for w in case["nets"]:
             choices = [gl.allowed_variants(suite, case, w, vm, t) for vm in vms]
             for combo in itertools.product(*choices):
@@ -178,8 +183,8 @@ def run_cases(ctx, cases):
         ctx.count("mode." + case.get("mode", "eager"))
         ctx.count(f"workers={len(case['nets'])}")
         if status.startswith("error:ValueError:Detected") or status.startswith("error:AssertionError"):
-            dbl = any(sum(1 for o in t["objs"].values() if o["get"] and not o["get_state"]) >= 2
-                      for t in case["suite"]["tests"])
+            dbl = (not case["suite"].get("path")) and any(
+                sum(1 for o in t["objs"].values() if o["get"] and not o["get_state"]) >= 2 for t in case["suite"]["tests"])
             ctx.violate("double-clone" if dbl else "parser-rejects-own-graph", status[:300], dict(case))
             ctx.case(c06.brief(case), nontrivial=True)
             continue
@@ -251,6 +256,15 @@ def correspondence(ctx):
                 ctx.notes.append(f"time budget: stopped after {i} of {len(cases)} cases")
                 break
             gl.run_attributed(ctx, case, lambda c, k: run_cases(c, [k]))
+        # the shipped suite: its abstract suite is enumerated through virttest's Cartesian parser directly
+        ship = list(range(len(c06.SHIPPED_CASES)))
+        rng.shuffle(ship)
+        for i in (ship if thorough else [6] + [j for j in ship if j != 6][:2]):
+            if ctx.remaining(budget + (300 if thorough else 45)) < 0:
+                ctx.notes.append("time budget: shipped-suite cases cut short")
+                break
+            ctx.count("suite.shipped")
+            gl.run_attributed(ctx, c06.shipped_case(i, with_suite=True), lambda c, k: run_cases(c, [k]))
     finally:
         gl.cleanup()
 
@@ -276,9 +290,7 @@ def search(ctx, reason):
 
 
 def replay(ctx, payload):
-    case = dict(payload["case"])
-    if case.get("suite"):
-        case["suite"] = gl.suite_from_json(case["suite"])
+    case = gl.load_case(payload["case"])
     case.pop("order", None)
     try:
         run_cases(ctx, [case])
